@@ -362,6 +362,7 @@ class Corr:
         }
 
     def _cmp_trackers(self, out, phase, post_trs, ans_trs, quantum_ok=None, dmg_scales=None):
+        rid_mm, finish_tie = [], False
         for i, (pt, at) in enumerate(zip(post_trs, ans_trs)):
             loose = quantum_ok[i] if quantum_ok is not None else 0.0
             dmg_scale = (dmg_scales[i] if dmg_scales is not None else 1.0)
@@ -387,8 +388,13 @@ class Corr:
                     out.append(Mismatch(phase=phase, var=tag + "status", impl=pt["status"], model=at["status"]))
                 else:
                     self.stats.tie("finish")
+                    finish_tie = True
             elif pt["rid"] != at["rid"]:
-                out.append(Mismatch(phase=phase, var=tag + "rid", impl=pt["rid"], model=at["rid"]))
+                rid_mm.append(Mismatch(phase=phase, var=tag + "rid", impl=pt["rid"], model=at["rid"]))
+        # (an event that finishes on one side of a rounding tie and not on the other gives its block id back on one side only:
+        #  the ids of the others then differ by construction)
+        if not finish_tie:
+            out.extend(rid_mm)
 
     def events_pre(self, ph, sim) -> list:
         out = []
